@@ -208,12 +208,17 @@ func (llb *Buffer) ReadFrom(r io.Reader) (n int64, err error) {
 		}
 		n += int64(m)
 		b = b[:m]
-		if err == io.EOF {
-			bsPool.Put(b)
-			return n, nil
-		}
 		if err != nil {
-			bsPool.Put(b)
+			// A Reader may return m > 0 bytes together with io.EOF or
+			// any other error, those bytes must not be dropped.
+			if m > 0 {
+				llb.pushBack(&node{buf: b})
+			} else {
+				bsPool.Put(b)
+			}
+			if err == io.EOF {
+				err = nil
+			}
 			return
 		}
 		llb.pushBack(&node{buf: b})
